@@ -261,3 +261,17 @@ for _pid in ("C01", "C02", "C06", "C11", "C12", "C13", "C16", "C17", "C05", "C04
     PROPS[_pid]["modules"] = list(PROPS[_pid]["modules"]) + ["EdVerif.Gen.FormulaTies"]
     PROPS[_pid]["needs_gen"] = list(PROPS[_pid].get("needs_gen", DEFAULT_NEEDS_GEN)) + ["formulas"]
     PROPS[_pid]["trusted_extra"] = list(PROPS[_pid].get("trusted_extra", [])) + [FORMULA_NOTE]
+
+# C03: the checker's soundness is now a Lean theorem against the executable leakage semantics
+PROPS["C03"]["modules"] = PROPS["C03"]["modules"] + ["EdVerif.Props.Structural.CtSound"]
+PROPS["C03"]["text"] = (
+    "Lean theorems. (1) Generic, proved once (EdVerif/Ssa/NI, ~3600 lines, lock-step simulation over a small-step machine with heap, call stack and "
+    "modelled externals): for ANY program whose simple verdict ctOkSimple is true, two runs of a checked function from related states (equal address-class "
+    "scalars and public values, arbitrary secret integers/booleans in registers, parameters and memory) produce leakage traces - branch conditions, addresses of "
+    "all memory accesses, indices, slice bounds, variable shift counts, division operands, allocation sizes, call targets, panics - that are equal or first differ at "
+    "an event of an allowed (function, kind). (2) Regenerated, re-proved on every run by kernel evaluation over the SSA of /repo's working tree (both packages, 118 "
+    "functions): ctOkSimple holds with exactly the policy's allowed pairs (decoder validity decisions, the discharged signedRadix16 guard, known finding KF-1), "
+    "the count-based ctCheck holds, and the residual without KF-1 is exactly KF-1; the amd64/arm64 assembly is straight-line with addresses from pointer arguments "
+    "only (C20_ct). (3) The SSA semantics is validated on every run by executing the regenerated SSA (ssarun) against the real code. A secret-dependent branch found "
+    "by the checker is confirmed on the real code by comparing basic-block execution counts of two runs that differ only in secrets.")
+PROPS["C03"]["technique"] = "Lean 4 non-interference theorem for an SSA leakage semantics + kernel-evaluated checker over regenerated SSA + executed SSA-vs-code correspondence"
